@@ -148,7 +148,12 @@ class Socket(base_socket.BaseSocket):
             return self.server._bad_request()
         ws = self.server._async['websocket'](
             self._websocket_handler, self.server)
-        return ws(environ, start_response)
+        try:
+            return ws(environ, start_response)
+        finally:
+            # a handshake that failed with an error must not leave the
+            # polling transport on hold
+            self.upgrading = False
 
     def _websocket_handler(self, ws):
         """Engine.IO handler for websocket transport."""
